@@ -111,7 +111,10 @@ async def replay_async(sched, nested, same_runner, shape=None):
     for op, r in sched:
         if op == "resolve":
             inp = []
-            vals, kw = w.call_args({"inp": inp, "mark": r})
+            base_in = {"inp": inp, "mark": r}
+            if w.shape.get("opt_some") and r % 2 == 0:
+                base_in["acc"] = []          # this run passes its OWN list for the default-valued parameter; later runs must not see it
+            vals, kw = w.call_args(base_in)
             inputs[r] = vals if vals is not None else kw
             inputs[r + 1000] = (dict(inputs[r]), {k: id(v) for k, v in inputs[r].items()})
             inputs[r + 2000] = inp
@@ -136,7 +139,10 @@ def replay_sync(order, nested, modes, same_runner, shape=None):
     sr = SyncRunner()
     for r in order:
         inp = []
-        vals, kw = w.call_args({"inp": inp, "mark": r})
+        base_in = {"inp": inp, "mark": r}
+        if w.shape.get("opt_some") and r % 2 == 0:
+            base_in["acc"] = []
+        vals, kw = w.call_args(base_in)
         inputs[r] = vals if vals is not None else kw
         inputs[r + 1000] = (dict(inputs[r]), {k: id(v) for k, v in inputs[r].items()})
         inputs[r + 2000] = inp
@@ -165,6 +171,16 @@ def verdicts(ctx, w, inputs, results, wit):
             return
         if narrowed and not set(res.values) <= {"side_out"}:
             raise RuntimeError(f"harness: narrowed graph returned {sorted(res.values)}")
+        own_acc = "acc" in inputs[r]
+        if own_acc:
+            if rec["acc_id"] != id(inputs[r]["acc"]):
+                ctx.violation("provided-value-copied", wit, f"run {r}: the list passed for the default-valued parameter did not reach the node as the caller's object")
+                return
+            seen_ids.add(rec["opts_id"])
+            if rec["store_id"] != id(w.bound_obj):
+                ctx.violation("bound-value-copied", wit, f"run {r}: the bound object did not reach the node as the very object that was bound")
+                return
+            continue
         if rec["acc_id"] == id(d0[0]) or rec["opts_id"] == id(d0[1]):
             ctx.violation("default-not-copied", wit, f"run {r} received the function's own default object")
             return
@@ -308,7 +324,7 @@ def run(tier, seed):
         sched = [(op, int(r)) for op, r in s]
         for nested in (False, True):
             same = rng.random() < 0.5
-            shape = {"bind_at": rng.choice(["outer", "inner", "inner_renamed"]), "side": rng.random() < 0.5, "sink": rng.random() < 0.2,
+            shape = {"bind_at": rng.choice(["outer", "inner", "inner_renamed"]), "side": rng.random() < 0.5, "sink": rng.random() < 0.2, "opt_some": rng.random() < 0.3,
                      "select_side": rng.random() < 0.6, "call": rng.choice(["dict", "dict", "mixed", "kwargs"])}
             ctx.bump("shape:" + (shape["bind_at"] if nested else "flat") + ("+narrowed" if shape["side"] and shape["select_side"] else "") + "/" + shape["call"])
             wit = {"schedule": s, "nested": nested, "same_runner": same, "runner": "async", "shape": shape}
@@ -318,7 +334,9 @@ def run(tier, seed):
             n_async += 1
             ctx.distinct(json.dumps([s, nested]))
             if err:
-                raise RuntimeError(f"replay failed: {err} {wit}")
+                # the node function was never entered although all its inputs (provided, bound, default) are there
+                ctx.violation("node-did-not-run", wit, f"replay could not proceed: {err}")
+                continue
             verdicts(ctx, *out, wit)
             # sequential histories also on the sync runner (order of the 'finish' steps)
             overlap = any(sched[i][1] != sched[i + 1][1] for i in range(len(sched) - 1) if sched[i][0] != "finish")
